@@ -84,6 +84,9 @@ fn replace_resource_text(json: &str, rid: &str, old: &str, new: &str) -> Option<
 
 impl C18 {
     pub fn check_state(&self, rep: &Reporter, hist: &[Op], ord: u64) {
+        // the reference model of the same history: what each annotation's offset denotes (cursor values and alignment)
+        let model = crate::hist::replay_model(hist);
+        let live = model.live_anns();
         for pmode in [PMode::Checksum, PMode::Text, PMode::Both, PMode::Auto] {
             let (mut store, _) = replay_real(hist);
             let case = |phase: &str, extra: Value| json!({"history": history_json(hist, None), "mode": format!("{:?}", pmode), "phase": phase, "edit": extra});
@@ -217,6 +220,41 @@ impl C18 {
                                     }
                                 }
                                 Err(p) => fail(&format!("edit:{}", edit.kind), &format!("store-validate-panic:{}", msg_class(&p)), "-", "store.validate_text panicked".into(), extra.clone()),
+                            }
+                        }
+                    }
+                    // what a simple text target denotes in the edited text, from the model: begin-aligned cursors keep their distance
+                    // to the begin, end-aligned cursors their distance to the end; the reloaded annotation must select exactly that
+                    if live.len() == now.len() {
+                        let (n_old, newchars): (usize, Vec<char>) = (text.chars().count(), newtext.chars().collect());
+                        let n_new = newchars.len();
+                        for (i, cur) in now.iter().enumerate() {
+                            let ma = match model.anns[live[i]].as_ref() {
+                                Some(ma) if ma.kind == TKind::Simple && ma.parts.len() == 1 => ma,
+                                _ => continue,
+                            };
+                            if let crate::model::MT::Text { res, b, e, mode } = &ma.parts[0] {
+                                if model.res.get(*res).and_then(|r| r.as_ref()).map(|r| r.id.as_str()) != Some(rid.as_str()) {
+                                    continue;
+                                }
+                                // mode: 0 begin/begin, 1 begin/end, 2 end/end, 3 end/begin
+                                let nb = if *mode == 0 || *mode == 1 { Some(*b) } else { (n_new + *b).checked_sub(n_old) };
+                                let ne = if *mode == 0 || *mode == 3 { Some(*e) } else { (n_new + *e).checked_sub(n_old) };
+                                if let (Some(nb), Some(ne)) = (nb, ne) {
+                                    if nb <= ne && ne <= n_new {
+                                        let want: String = newchars[nb..ne].iter().collect();
+                                        self.validations.fetch_add(1, Ordering::Relaxed);
+                                        if cur.1 != want {
+                                            fail(
+                                                &format!("edit:{}", edit.kind),
+                                                &format!("reloaded-selection-is-not-what-the-offset-denotes:alignment={}", ["begin-begin", "begin-end", "end-end", "end-begin"][*mode as usize]),
+                                                &cur.3,
+                                                format!("resource {} text {:?} -> {:?}: annotation {} was made with an offset denoting {}..{} of the edited text = {:?}, after save and reload it selects {:?}", rid, text, newtext, cur.0, nb, ne, want, cur.1),
+                                                extra.clone(),
+                                            );
+                                        }
+                                    }
+                                }
                             }
                         }
                     }
